@@ -76,7 +76,8 @@ func runC07(r *Report) {
 				if ok {
 					k, isc = ConstInt(bo.Y)
 				}
-				if !ok || bo.Op != token.GTR || bo.X != ssa.Value(call) || !isc || k != 0 {
+				// `x > 0` or its exact complement `x <= 0` (which arm is the hit is decided by the path rules below)
+				if !ok || (bo.Op != token.GTR && bo.Op != token.LEQ) || bo.X != ssa.Value(call) || !isc || k != 0 {
 					okUse = false
 				}
 			}
